@@ -11,7 +11,7 @@ from sa import pm, tm
 from sa.core import Ctx
 from sa.sm import call_kw, const_str, dotted, find_calls, fstring_skeleton, norm, walk_no_nested
 
-from . import common, printers
+from . import common, printers, util
 from .c11 import grammar
 
 
@@ -52,6 +52,19 @@ def reserved_names(ctx: Ctx) -> dict[str, str]:
             for c in find_calls(f.node, "IndexedBase"):
                 if c.args and const_str(c.args[0]):
                     out.setdefault(const_str(c.args[0]), f"{short}::{m} IndexedBase")
+            # the same from what the function computes (names held in module constants, built by helpers)
+            try:
+                fv = util.value_of(ctx, f)
+            except Exception:
+                fv = None
+            if fv is not None:
+                for c in _av.find_all(fv, "call"):
+                    if c[1].split(".")[-1] == "IndexedBase" and c[2] and c[2][0][0] == "c" and isinstance(c[2][0][1], str):
+                        out.setdefault(c[2][0][1], f"{short}::{m} IndexedBase")
+                for text in util.strings_in(fv):
+                    last = text.split()[-1] if text.split() else ""
+                    if last.isidentifier() or last.lstrip("*").isidentifier():
+                        out.setdefault(last, f"{short}::{m} formal argument")
     si = sm.func("codegen/base.py", "CodeGenerator._shape_info")
     for n in ast.walk(si.node):
         if isinstance(n, ast.JoinedStr):
@@ -69,6 +82,15 @@ def reserved_names(ctx: Ctx) -> dict[str, str]:
     for c in find_calls(sm.func("codegen/base.py", "CodeGenerator._missing_variables_assignments").node, "IndexedBase"):
         if c.args and const_str(c.args[0]):
             out.setdefault(const_str(c.args[0]), "codegen/base.py missing-variables array")
+    # the same from what these functions compute (names held in module constants)
+    for qn, why in (("CodeGenerator._missing_variables_assignments", "codegen/base.py missing-variables array"), ("CodeGenerator.scheme", "codegen/base.py::scheme time-step symbol")):
+        try:
+            fv = util.value_of(ctx, sm.func("codegen/base.py", qn))
+        except Exception:
+            continue
+        for c in _av.find_all(fv, "call"):
+            if c[1].split(".")[-1] in ("IndexedBase", "Symbol") and c[2] and c[2][0][0] == "c" and isinstance(c[2][0][1], str):
+                out.setdefault(c[2][0][1], why)
     for fam in ("state", "parameter", "monitor", "missing"):
         out.setdefault(fam, "templates/python.py::_index table name")
         out.setdefault(f"{fam}_index", "index function")
